@@ -235,10 +235,14 @@ class _Seq:
         raise MGraphError("TypeError", f"unsupported index {k!r}")
 
 
+_graph_uid = iter(range(1, 1 << 62))
+
+
 class MGraph:
     def __init__(self, n: int = 0, edges: Any = None, directed: bool = False, **kw: Any) -> None:
         if not directed:
             raise MGraphError("Unsupported", "undirected graphs are not modelled")
+        self.uid = 10_000_000 + next(_graph_uid)  # what id(graph) evaluates to: never reused, so the evaluation is deterministic
         self._v: list[dict[str, Any]] = [dict() for _ in range(n)]
         self._e: list[tuple[int, int, dict[str, Any]]] = []
         self._vattrs: list[str] = []
